@@ -260,6 +260,20 @@ def check_case(d, S, X, v=None, hop=None, with_reference=True):
         except Exception as ex:
             problems.append("detached: invariant evaluation raised %s" % type(ex).__name__)
         errors = list(v.iter_errors(X))
+    if not problems and errors:
+        # an ErrorTree built from the errors is a reader of them: afterwards every error still says where it is
+        try:
+            before = [(list(e.path), list(e.schema_path), list(e.absolute_path), list(e.absolute_schema_path), e.json_path)
+                      for e in errors]
+            exceptions.ErrorTree(errors)
+            exceptions.best_match(errors)
+            after = [(list(e.path), list(e.schema_path), list(e.absolute_path), list(e.absolute_schema_path), e.json_path)
+                     for e in errors]
+            if before != after:
+                problems.append("building an ErrorTree / best_match changed the errors' own paths")
+        except Exception as ex:
+            if "propertyNames" not in str(S):
+                problems.append("ErrorTree / best_match over the errors raised %s" % type(ex).__name__)
     if with_reference:
         try:
             exp = _e1.sort_locs(spec.errs(d, S, X))
